@@ -340,6 +340,31 @@ def _case(rng: Rng, tier, entry=None, force=None):
             case["variants"] = [["sub", Qs[1:3]], ["thin", Qs[::2]], ["single", [Qs[2]]], ["perm", [Qs[2], Qs[0], Qs[3], Qs[1]]], ["super", sorted(set(Qs) | {case["obs"][0]["t"][0]}, key=F)]]
             case["degree"] = rng.choice([1, 2])
             case["hu"] = rs(rng.choice([Fraction(3, 4), Fraction(1)]))
+    # requests reaching OUTSIDE the sampling range (by a little: 1/64 of the range, and by a lot: 1/4), on one or both sides.
+    # Unchanged tree: P-splines evaluate the basis laid on the stored (data) domain at those points — the truncated-power
+    # formula extrapolates within the extended knots and is 0 beyond them; local polynomials solve the local problem there
+    # like anywhere else.  The model does exactly the same, so every value is compared; the values at the interior points
+    # must not depend on the outside points being requested.
+    if not gap and not force.get("pooled_n") and not case.get("bigq") and (force.get("outside") or rng.random() < 0.25):
+        lo_, sc_ = _domain(dom)
+        side = force.get("side", rng.choice(["both", "left", "right"]))
+        outs = ([lo_ - sc_ / 4, lo_ - sc_ / 64] if side in ("both", "left") else []) + ([lo_ + sc_ + sc_ / 64, lo_ + sc_ + sc_ / 4] if side in ("both", "right") else [])
+        if case.get("int_axis0"):
+            outs = [lo_ - 1, lo_ + sc_ + 2]
+        Qold = list(case["Q"])
+        Qn = sorted(set(F(t) for t in Qold) | set(outs))
+        case["outside"] = side
+        case["Q"] = [rs(t) for t in Qn]
+        if two_d:
+            Q2_ = case["Q2"]
+            case["variants"] += [["inside_only", Qold, Q2_], ["single_outside", [rs(outs[0])], Q2_[:1]], ["outside_only", [rs(t) for t in outs], Q2_]]
+            if case.get("int_axis0"):
+                case["variants"] = [v for v in case["variants"] if v[0] != "asfloat"] + [["asfloat", case["Q"], Q2_]]
+            if case.get("same_axes"):
+                case["Q2"] = case["Q"]
+        else:
+            case["variants"] += [["inside_only", Qold], ["single_inside", [Qold[len(Qold) // 2]]], ["single_outside", [rs(outs[0])]], ["outside_only", [rs(t) for t in outs]],
+                                 ["one_outside_rest_inside", [rs(outs[-1])] + Qold]]
     # near-coincident DISTINCT query locations (gaps of 1e-9 … 1e-5 bandwidths), requested jointly, alone, reversed
     if not two_d and not entry.endswith("covariance") and not gap and not case.get("pooled") and not force.get("pooled_n") and (force.get("near") or rng.random() < 0.25):
         lo_, sc_ = _domain(dom)
@@ -405,6 +430,12 @@ def gen_cases(rng: Rng, tier):
     for method in ("PS", "LP"):
         yield _case(rng, tier, "IrregularFunctionalData.mean", dict(method=method, dom=rng.choice(["unit", "end0", "doy"]), nonconst=True, pooled=True))
         k += 1
+    for j, entry in enumerate(sorted(set(ENTRIES))):
+        for method in ("PS", "LP"):
+            if (entry.startswith("PSplines") and method == "LP") or (entry.startswith("LocalPolynomial") and method == "PS"):
+                continue
+            yield _case(rng, tier, entry, dict(method=method, dom=["unit", "doy", "end0", "neg"][j % 4], nonconst=True, outside=True, side=["both", "left", "right"][j % 3]))
+            k += 1
     for pn, method in ((1500, "LP"), (2000, "LP"), (2001, "LP"), (2500, "LP"), (1500, "PS")) + (((1999, "LP"), (2001, "PS"), (1999, "PS")) if tier == "thorough" else ()):
         yield _case(rng, tier, "IrregularFunctionalData.mean", dict(method=method, dom=rng.choice(["unit", "doy"]), nonconst=True, pooled_n=pn))
         k += 1
@@ -592,6 +623,17 @@ def run_impl(case):
             pv = [v[1] for v in case["variants"] if v[0] in ("perm", "reversed") and len(v[1]) == len(case["Q"])][0]
             buf[:] = _np(pv)
             out["inplace"] = dict(first=first, pts=pv, second=np.asarray(ps.predict(buf)).tolist())
+            # results KEPT across calls on one object (same number of query points): they must stay what they were and
+            # must not share memory with later results
+            qa, qb = _np(case["Q"]), _np(pv)
+            k1 = ps.predict(qa)
+            k1_copy = np.array(k1, copy=True)
+            k2 = ps.predict(qb)
+            k3 = ps.predict(qa)
+            yh_kept = ps.y_hat
+            yh_copy = np.array(yh_kept, copy=True)
+            out["kept"] = dict(changed=bool(not np.array_equal(np.asarray(k1), k1_copy)), shares=bool(np.shares_memory(k1, k2) or np.shares_memory(k1, k3)),
+                               first=np.asarray(k1).tolist(), again=np.asarray(k3).tolist())
             # history on one object: refit on other data (other domain, no explicit fit domain), compare with a fresh object
             x2, y2, q2 = 2.0 * x + 3.0, y[::-1].copy(), 2.0 * _np(case["Q"]) + 3.0
             ps.fit(y2, x2, penalty=(float(F(case["pen"][0])),))
@@ -599,6 +641,7 @@ def run_impl(case):
             fresh = PSplines(n_segments=case["nseg"][0], degree=case["deg"][0])
             fresh.fit(y2, x2, penalty=(float(F(case["pen"][0])),))
             out["hist_fresh"] = np.asarray(fresh.predict(q2)).tolist()
+            out["kept"]["y_hat_changed_by_refit"] = bool(not np.array_equal(np.asarray(yh_kept), yh_copy))
         else:
             x1, x2 = _np0(case, case["x"]), _np(case["x2"])
             Y = np.array([[float(F(t)) for t in r] for r in case["Y"][0]])
@@ -1036,6 +1079,12 @@ def oracle(case, impl):
         for q, v in zip(ip["pts"], ip["second"]):
             if (0, q) in base and abs(v - base[(0, q)]) > tol:
                 bad("history_independent", f"query buffer overwritten in place with a permutation: value at {q} is {v!r}, but {base[(0, q)]!r} when requested through a new array", ["inplace"])
+    if "kept" in impl:
+        kp = impl["kept"]
+        if kp["changed"] or kp["shares"] or kp.get("y_hat_changed_by_refit"):
+            bad("results_kept", f"a result kept from an earlier predict/fit call on the same PSplines object was overwritten by a later call (changed={kp['changed']}, shares memory={kp['shares']}, y_hat changed by refit={kp.get('y_hat_changed_by_refit')})")
+        if not np.allclose(kp["first"], kp["again"], rtol=0, atol=tol):
+            bad("history_independent", "the same request gives another result after another request of the same size")
     if "hist_same" in impl:
         a, b = np.asarray(impl["hist_same"], dtype=float), np.asarray(impl["hist_fresh"], dtype=float)
         if a.shape != b.shape or not np.allclose(a, b, rtol=0, atol=1e-9 * max(1.0, float(np.max(np.abs(b))))):
@@ -1085,4 +1134,6 @@ def classify(case, impl):
         tags.append("int-dtype-axis0")
     if case.get("same_axes"):
         tags.append("coinciding-request-axes")
+    if case.get("outside"):
+        tags.append("request-outside-sampling-range:" + case["outside"])
     return tags
